@@ -16,9 +16,9 @@ from vlib import MachineryError
 from checks.c06 import tokenizer_families, PARSE_CFG
 
 QUICK = [("T1", 3, False), ("T2", 4, False), ("T3", 3, False), ("T4", 3, False), ("T5", 3, False), ("T6", 4, False),
-         ("T7", 7, False), ("T8", 4, False), ("T9", 3, True), ("T10", 4, False), ("T12", 3, True)]
+         ("T7", 7, False), ("T8", 4, False), ("T9", 3, True), ("T10", 4, False), ("T12", 3, True), ("T13", 5, False)]
 THOROUGH = [("T1", 4, False), ("T2", 5, False), ("T3", 5, False), ("T4", 5, False), ("T5", 4, False), ("T6", 6, False),
-            ("T7", 9, False), ("T8", 5, False), ("T9", 3, True), ("T9", 3, False), ("T10", 5, False), ("T12", 4, True)]
+            ("T7", 9, False), ("T8", 5, False), ("T9", 3, True), ("T9", 3, False), ("T10", 5, False), ("T12", 4, True), ("T13", 6, False)]
 RULES_QUICK = [("stylesheet", "full", 4), ("decls", "full", 4), ("blocks", "full", 4), ("onedecl", "imp", 5)]
 RULES_THOROUGH = [("stylesheet", "full", 5), ("rules", "full", 5), ("decls", "full", 5), ("blocks", "full", 5), ("onedecl", "imp", 6)]
 
